@@ -195,7 +195,7 @@ func init() {
 		for i := range cs {
 			cs[i].InitialMmapSize = 1 << 20 // no remap inside a single goroutine (documented deadlock); remap is covered by driver d3
 		}
-		scs := mk("c02-life", seeds, cs, n, 1, lifeAlphabet(3, lifeBodies, reopenCfgs(), maxTx), nil)
+		scs := mk("c02-life", seeds, cs, n, 1, lifeAlphabet(3, lifeBodies, reopenCfgsBig(), maxTx), nil)
 		for _, s := range scs {
 			s.Setup = func(x *apix.Exec) { x.EnableMonitor(false) }
 		}
